@@ -413,6 +413,9 @@ func C01Cases(tier string, seed int64) []Case {
 		cases = append(cases, Case{ID: fmt.Sprintf("C01/dkls23-bbot/%s/quorum=%s", pol.Name, setName(q)),
 			Desc: map[string]any{"protocol": "dkls23 signing_bbot rounds 1-4", "policy": pol.Name, "quorum": q, "randomness": "symbolic"},
 			Sym:  func(e *SymEnv) { c01Dkls23(e, pol, q, []byte("dkls23 message")) }, MustReach: []string{"dkls23-done"}, NoConcreteValidation: true})
+		cases = append(cases, Case{ID: fmt.Sprintf("C01/dkls23-softspoken/%s/quorum=%s", pol.Name, setName(q)),
+			Desc: map[string]any{"protocol": "dkls23 signing_softspoken rounds 1-5", "policy": pol.Name, "quorum": q, "randomness": "symbolic"},
+			Sym:  func(e *SymEnv) { c01Dkls23Soft(e, pol, q, []byte("dkls23 message")) }, MustReach: []string{"dkls23-softspoken-done"}, NoConcreteValidation: true})
 		if tier == "thorough" {
 			pol2 := cnfPolicy([]int{0b001, 0b110}, idPools[0][:3])
 			q2 := sortedIDs(pol2.IDs)[:2]
